@@ -525,6 +525,17 @@ def w_spill(case, led):
                         spilled = [isinstance(e, str) and os.path.dirname(e) == mydir and os.path.isfile(e) for e in sp._mp]
                         led.check(all(spilled), "post:MatrixProduct._array2mt:spills_when_larger_than_dump_matrix_size", "MatrixProduct._array2mt",
                                   f"site entries {[type(e).__name__ for e in sp._mp]}: not all moved to {mydir}", key, fields, rep, nontriv)
+                        def readable(stage):
+                            try:
+                                for i_ in range(n):
+                                    _ = sp[i_].array
+                                return True
+                            except Exception as e_:
+                                led.check(False, "post:MatrixProduct.__getitem__:spilled_site_readable", "MatrixProduct.__getitem__",
+                                          f"{stage}: reading a spilled site raised {type(e_).__name__}: {e_}", key + (stage,), fields, rep, nontriv)
+                                return False
+                        if not readable("after the first assignment"):
+                            continue
                         ok = [bits(sp[i].array, ref[i].array) and np.array_equal(np.asarray(sp[i].sigmaqn), np.asarray(ref[i].sigmaqn)) for i in range(n)]
                         led.check(all(ok), "post:MatrixProduct.__getitem__:transparent_reload", "MatrixProduct.__getitem__",
                                   f"sites {[i for i, o in enumerate(ok) if not o]} read back from disk differ (bits or sigmaqn) from what was assigned",
@@ -532,9 +543,13 @@ def w_spill(case, led):
                         # overwrite every site with another tensor, then write the right ones back: no stale file, no growth
                         for i in range(n):
                             sp[i] = np.asarray(ref[i].array) * 2.0
+                        if not readable("after re-assigning sites that were already on disk"):
+                            continue
                         ok2 = [bits(sp[i].array, np.asarray(ref[i].array) * 2.0) for i in range(n)]
                         for i in reversed(range(n)):
                             sp[i] = np.array(ref[i].array, copy=True)
+                        if not readable("after re-assigning the sites a second time"):
+                            continue
                         ok3 = [bits(sp[i].array, ref[i].array) for i in range(n)]
                         nfiles = len(os.listdir(mydir)) if os.path.isdir(mydir) else -1
                         led.check(all(ok2) and all(ok3) and nfiles == n, "post:MatrixProduct.__setitem__:replaces_spilled_site", "MatrixProduct.__setitem__",
